@@ -82,6 +82,12 @@ def gen(rng):
             removed_parent = True
         else:
             procs.append({'argv': ['trash-list'], 'env': env, 'cwd': '/', 'uid': uid})
+    if vol != '/' and L['trash'][vol]['top'] == 'absent' and tdopt is None and rng.random() < 0.35:
+        # the layout changes after x was trashed: the administrator creates the shared sticky $topdir/.Trash, later puts go
+        # to .Trash/$uid - x, in .Trash-$uid, must remain restorable (both directories of the volume are read)
+        procs.append({'foreign': [['d', vol + '/.Trash', 0o1777]]})
+        if rng.random() < 0.7:
+            procs.append({'argv': ['trash-put', '--', wd + '/' + rng.choice(others)], 'env': env, 'cwd': '/', 'uid': uid, 'advance': 3})
     sort = rng.choice(['date', 'path', 'none', None])
     argv = ['trash-restore']
     if sort:
